@@ -566,6 +566,7 @@ func (vc *VC) atReturn(st *State, ret *ssa.Return) {
 		}
 	}
 	vc.bindLetsOld(env, c)
+	vc.pathCover(st, site)
 	vc.threadEndCheck(st, site)
 	for _, g := range vc.contract.Ghosts {
 		if g.Callee == "@return" {
